@@ -40,6 +40,8 @@ type Engine struct {
 	globals   map[*ssa.Global]*Obj
 	initGhost map[string]Value
 	restObjs  map[string]*Obj
+	entries   map[string]*EntryInfo
+	extraTerms []*Term
 	obls      []*Obligation
 	assumpLog map[string]bool
 	errors    []string
@@ -70,6 +72,7 @@ func newEngine() *Engine {
 		globals:   map[*ssa.Global]*Obj{},
 		initGhost: map[string]Value{},
 		restObjs:  map[string]*Obj{},
+		entries:   map[string]*EntryInfo{},
 		assumpLog: map[string]bool{},
 		ordCache:  map[*ssa.Function]map[ssa.Instruction]int{},
 		loopCache: map[*ssa.Function]*loopInfo{},
